@@ -26,6 +26,25 @@ Inductive yields (c : ctx) : expr -> str -> Prop :=
 | Y_and a b x v : eval Strict c a = Ok v -> truthy Strict v = Ok true -> yields c b x -> yields c (EAnd a b) x
 | Y_or a b x v : eval Strict c a = Ok v -> truthy Strict v = Ok false -> yields c b x -> yields c (EOr a b) x.
 
+(* one entry of a dict literal *)
+Definition eval_kv (p : undefined_policy) (c : ctx) (ka : str * expr) : result terr (str * value) :=
+  match eval p c (snd ka) with Err e => Err e | Ok x => Ok (fst ka, x) end.
+
+(* [carries c e x]: e evaluates, without anything being forced, to a value that IS the Undefined
+   object of x or a list / tuple / dict literal (nested to any depth) that HOLDS it; the other
+   elements of the literals evaluate without error (left to right, as eval does) *)
+Inductive carries (c : ctx) : expr -> str -> Prop :=
+| C_var x : carries c (EVar x) x
+| C_and a b x v : eval Strict c a = Ok v -> truthy Strict v = Ok true -> carries c b x -> carries c (EAnd a b) x
+| C_or a b x v : eval Strict c a = Ok v -> truthy Strict v = Ok false -> carries c b x -> carries c (EOr a b) x
+| C_list pre a post x vs ws : mapM (eval Strict c) pre = Ok vs -> carries c a x ->
+    mapM (eval Strict c) post = Ok ws -> carries c (EList (pre ++ a :: post)) x
+| C_tuple pre a post x vs ws : mapM (eval Strict c) pre = Ok vs -> carries c a x ->
+    mapM (eval Strict c) post = Ok ws -> carries c (ETuple (pre ++ a :: post)) x
+| C_dict pre k a post x vs ws : distinct_keys (map fst (pre ++ (k, a) :: post)) = true ->
+    mapM (eval_kv Strict c) pre = Ok vs -> carries c a x ->
+    mapM (eval_kv Strict c) post = Ok ws -> carries c (EDict (pre ++ (k, a) :: post)) x.
+
 (* [eforced c e x]: evaluating e reaches an operation that forces the Undefined object of x;
    every rule follows the evaluation order of [eval] (what is evaluated before must be Ok) *)
 Inductive eforced (c : ctx) : expr -> str -> Prop :=
@@ -50,40 +69,217 @@ Inductive eforced (c : ctx) : expr -> str -> Prop :=
 | F_or_l a b x : yields c a x -> eforced c (EOr a b) x
 | F_or_in_l a b x : eforced c a x -> eforced c (EOr a b) x
 | F_or_in_r a b x v : eval Strict c a = Ok v -> truthy Strict v = Ok false -> eforced c b x -> eforced c (EOr a b) x
-| F_range a x : yields c a x -> eforced c (ERange a) x
+| F_range a x : carries c a x -> eforced c (ERange a) x       (* range() of an Undefined / of a container *)
 | F_range_in a x : eforced c a x -> eforced c (ERange a) x
-| F_list pre a post x vs : mapM (eval Strict c) pre = Ok vs -> eforced c a x -> eforced c (EList (pre ++ a :: post)) x.
+| F_list pre a post x vs : mapM (eval Strict c) pre = Ok vs -> eforced c a x -> eforced c (EList (pre ++ a :: post)) x
+| F_tuple pre a post x vs : mapM (eval Strict c) pre = Ok vs -> eforced c a x -> eforced c (ETuple (pre ++ a :: post)) x
+| F_dict pre k a post x vs : distinct_keys (map fst (pre ++ (k, a) :: post)) = true ->
+    mapM (eval_kv Strict c) pre = Ok vs -> eforced c a x -> eforced c (EDict (pre ++ (k, a) :: post)) x.
 
-(* templates: [nforced c n x] / [lforced c l x] / [iforced c lv body items x] *)
-Inductive nforced : ctx -> node -> str -> Prop :=
-| N_out c e x : yields c e x -> nforced c (NOut e) x
-| N_out_in c e x : eforced c e x -> nforced c (NOut e) x
-| N_esc c e x : yields c e x -> nforced c (NOutEsc e) x
-| N_esc_in c e x : eforced c e x -> nforced c (NOutEsc e) x
-| N_if c cnd a b x : yields c cnd x -> nforced c (NIf cnd a b) x
-| N_if_in c cnd a b x : eforced c cnd x -> nforced c (NIf cnd a b) x
+(* templates: [nforced rf c n x] / [lforced rf c l x] / [iforced rf c lv body items x].
+   [rf] = "repr() of an Undefined object fails" (MiniJinja.repr): it decides what has been
+   rendered before (the *_later rules) and whether PRINTING A CONTAINER that holds the
+   Undefined object is a forcing position (N_out_holds). *)
+Inductive nforced (rf : bool) : ctx -> node -> str -> Prop :=
+| N_out c e x : yields c e x -> nforced rf c (NOut e) x
+| N_out_in c e x : eforced c e x -> nforced rf c (NOut e) x
+(* {{ [missing] }}, {{ {'k': (1, [missing])} }}: the container is printed element by element with
+   repr(); [repr false v = Ok s]: apart from the Undefined object the value is printable (s is
+   what a tree whose repr does not fail shows) *)
+| N_out_holds c e x v s : rf = true -> carries c e x -> eval Strict c e = Ok v -> repr false v = Ok s ->
+    nforced rf c (NOut e) x
+| N_esc c e x : carries c e x -> nforced rf c (NOutEsc e) x
+| N_esc_in c e x : eforced c e x -> nforced rf c (NOutEsc e) x
+| N_if c cnd a b x : yields c cnd x -> nforced rf c (NIf cnd a b) x
+| N_if_in c cnd a b x : eforced c cnd x -> nforced rf c (NIf cnd a b) x
 | N_if_then c cnd a b x v : eval Strict c cnd = Ok v -> truthy Strict v = Ok true ->
-    lforced c a x -> nforced c (NIf cnd a b) x
+    lforced rf c a x -> nforced rf c (NIf cnd a b) x
 | N_if_else c cnd a b x v : eval Strict c cnd = Ok v -> truthy Strict v = Ok false ->
-    lforced c b x -> nforced c (NIf cnd a b) x
-| N_for c lv e body x : reserved_var lv = false -> yields c e x -> nforced c (NFor lv e body) x
-| N_for_in c lv e body x : reserved_var lv = false -> eforced c e x -> nforced c (NFor lv e body) x
+    lforced rf c b x -> nforced rf c (NIf cnd a b) x
+| N_for c lv e body x : reserved_var lv = false -> yields c e x -> nforced rf c (NFor lv e body) x
+| N_for_in c lv e body x : reserved_var lv = false -> eforced c e x -> nforced rf c (NFor lv e body) x
 | N_for_body c lv e body x v items : reserved_var lv = false ->
     eval Strict c e = Ok v -> iter_values Strict v = Ok items ->
-    iforced c lv body items x -> nforced c (NFor lv e body) x
-with lforced : ctx -> list node -> str -> Prop :=
-| L_here c n r x : nforced c n x -> lforced c (n :: r) x
-| L_later c n r x s : render_node Strict n c = Ok s -> lforced c r x -> lforced c (n :: r) x
-with iforced : ctx -> str -> list node -> list value -> str -> Prop :=
-| I_here c lv body it r x : str_eqb lv x = false -> lforced ((lv, it) :: c) body x ->
-    iforced c lv body (it :: r) x
-| I_later c lv body it r x s : render Strict body ((lv, it) :: c) = Ok s ->
-    iforced c lv body r x -> iforced c lv body (it :: r) x.
+    iforced rf c lv body items x -> nforced rf c (NFor lv e body) x
+with lforced (rf : bool) : ctx -> list node -> str -> Prop :=
+| L_here c n r x : nforced rf c n x -> lforced rf c (n :: r) x
+| L_later c n r x s : render_node rf Strict n c = Ok s -> lforced rf c r x -> lforced rf c (n :: r) x
+with iforced (rf : bool) : ctx -> str -> list node -> list value -> str -> Prop :=
+| I_here c lv body it r x : str_eqb lv x = false -> lforced rf ((lv, it) :: c) body x ->
+    iforced rf c lv body (it :: r) x
+| I_later c lv body it r x s : render rf Strict body ((lv, it) :: c) = Ok s ->
+    iforced rf c lv body r x -> iforced rf c lv body (it :: r) x.
 
 Scheme nforced_mut := Induction for nforced Sort Prop
   with lforced_mut := Induction for lforced Sort Prop
   with iforced_mut := Induction for iforced Sort Prop.
 Combined Scheme forced_mutind from nforced_mut, lforced_mut, iforced_mut.
+
+(* ------------------------------------------------------------------ values *)
+(* induction over values with the nested lists *)
+Section ValueInd.
+  Variable P : value -> Prop.
+  Hypothesis Hnone : P VNone.
+  Hypothesis Hbool : forall b, P (VBool b).
+  Hypothesis Hint : forall z, P (VInt z).
+  Hypothesis Hstr : forall s, P (VStr s).
+  Hypothesis Hlist : forall l, Forall P l -> P (VList l).
+  Hypothesis Htuple : forall l, Forall P l -> P (VTuple l).
+  Hypothesis Hdict : forall d, Forall (fun kv => P (snd kv)) d -> P (VDict d).
+  Hypothesis Hrange : forall n, P (VRange n).
+  Hypothesis Hundef : P VUndef.
+  Fixpoint value_ind' (v : value) : P v :=
+    match v with
+    | VNone => Hnone
+    | VBool b => Hbool b
+    | VInt z => Hint z
+    | VStr s => Hstr s
+    | VList l => Hlist l ((fix go (l : list value) : Forall P l :=
+                             match l with [] => Forall_nil _ | x :: r => Forall_cons _ (value_ind' x) (go r) end) l)
+    | VTuple l => Htuple l ((fix go (l : list value) : Forall P l :=
+                               match l with [] => Forall_nil _ | x :: r => Forall_cons _ (value_ind' x) (go r) end) l)
+    | VDict d => Hdict d ((fix go (d : list (str * value)) : Forall (fun kv => P (snd kv)) d :=
+                             match d with
+                             | [] => Forall_nil _
+                             | kv :: r => Forall_cons _ (value_ind' (snd kv)) (go r)
+                             end) d)
+    | VRange n => Hrange n
+    | VUndef => Hundef
+    end.
+End ValueInd.
+
+Lemma has_undef_list l : has_undef (VList l) = existsb has_undef l.
+Proof. induction l as [|x r IH]; [reflexivity|]. cbn [existsb]. rewrite <- IH. reflexivity. Qed.
+Lemma has_undef_tuple l : has_undef (VTuple l) = existsb has_undef l.
+Proof. induction l as [|x r IH]; [reflexivity|]. cbn [existsb]. rewrite <- IH. reflexivity. Qed.
+Lemma has_undef_dict d : has_undef (VDict d) = existsb (fun kv => has_undef (snd kv)) d.
+Proof.
+  induction d as [|[k x] r IH]; [reflexivity|]. cbn [existsb snd]. rewrite <- IH. reflexivity.
+Qed.
+
+(* repr of the three containers through mapM *)
+Definition repr_kv (rf : bool) (kv : str * value) : result terr str :=
+  match repr_str (fst kv), repr rf (snd kv) with
+  | Ok kk, Ok a => Ok (kk ++ [58; 32] ++ a)%N
+  | Err e, _ => Err e
+  | _, Err e => Err e
+  end.
+
+Lemma repr_list rf l :
+  repr rf (VList l) = match mapM (repr rf) l with
+                      | Err e => Err e
+                      | Ok parts => Ok (91 :: join_str [44; 32] parts ++ [93])%N
+                      end.
+Proof.
+  cbn [repr].
+  match goal with |- match ?g l with _ => _ end = _ => assert (H : g l = mapM (repr rf) l) end.
+  { induction l as [|a r IH]; cbn [mapM]; [reflexivity|]. destruct (repr rf a); [|reflexivity]. rewrite IH. reflexivity. }
+  rewrite H. reflexivity.
+Qed.
+
+Lemma repr_tuple rf l :
+  repr rf (VTuple l) = match mapM (repr rf) l with
+                       | Err e => Err e
+                       | Ok [p] => Ok (40 :: p ++ [44; 41])%N
+                       | Ok parts => Ok (40 :: join_str [44; 32] parts ++ [41])%N
+                       end.
+Proof.
+  cbn [repr].
+  match goal with |- match ?g l with _ => _ end = _ => assert (H : g l = mapM (repr rf) l) end.
+  { induction l as [|a r IH]; cbn [mapM]; [reflexivity|]. destruct (repr rf a); [|reflexivity]. rewrite IH. reflexivity. }
+  rewrite H. reflexivity.
+Qed.
+
+Lemma repr_dict rf d :
+  repr rf (VDict d) = match mapM (repr_kv rf) d with
+                      | Err e => Err e
+                      | Ok parts => Ok (123 :: join_str [44; 32] parts ++ [125])%N
+                      end.
+Proof.
+  cbn [repr].
+  match goal with |- match ?g d with _ => _ end = _ => assert (H : g d = mapM (repr_kv rf) d) end.
+  { induction d as [|[k x] r IH]; cbn [mapM]; [reflexivity|]. unfold repr_kv at 1. cbn [fst snd].
+    destruct (repr_str k); destruct (repr rf x); try reflexivity. rewrite IH. reflexivity. }
+  rewrite H. reflexivity.
+Qed.
+
+(* element-wise: what a tree whose repr does not fail prints, a tree whose repr fails prints
+   too - unless an Undefined object is met, and then the error is UndefinedError *)
+Lemma mapM_repr_strict {T} (f g : T -> result terr str) (h : T -> bool) l :
+  Forall (fun x => forall s, f x = Ok s -> g x = if h x then Err EUndefined else Ok s) l ->
+  forall parts, mapM f l = Ok parts ->
+  mapM g l = if existsb h l then Err EUndefined else Ok parts.
+Proof.
+  induction 1 as [|x r Hx _ IH]; intros parts Hm; cbn [mapM existsb] in *.
+  - exact Hm.
+  - destruct (f x) as [a|] eqn:Ef; [|discriminate].
+    destruct (mapM f r) as [t|] eqn:Er; [|discriminate]. inversion Hm; subst parts.
+    rewrite (Hx _ eq_refl). destruct (h x); cbn [orb]; [reflexivity|].
+    rewrite (IH _ eq_refl). destruct (existsb h r); reflexivity.
+Qed.
+
+Theorem repr_strict_of_lenient : forall v s,
+  repr false v = Ok s -> repr true v = if has_undef v then Err EUndefined else Ok s.
+Proof.
+  induction v as [|b0|z0|s0|l IH|l IH|d IH|n0|] using value_ind'; intros s H; try exact H.
+  - rewrite repr_list in *. rewrite has_undef_list.
+    destruct (mapM (repr false) l) as [parts|] eqn:Em; [|discriminate].
+    rewrite (mapM_repr_strict _ _ _ _ IH _ Em). destruct (existsb has_undef l); [reflexivity|exact H].
+  - rewrite repr_tuple in *. rewrite has_undef_tuple.
+    destruct (mapM (repr false) l) as [parts|] eqn:Em; [|discriminate].
+    rewrite (mapM_repr_strict _ _ _ _ IH _ Em). destruct (existsb has_undef l); [reflexivity|exact H].
+  - rewrite repr_dict in *. rewrite has_undef_dict.
+    destruct (mapM (repr_kv false) d) as [parts|] eqn:Em; [|discriminate].
+    assert (IH' : Forall (fun kv => forall s0, repr_kv false kv = Ok s0 ->
+                            repr_kv true kv = if has_undef (snd kv) then Err EUndefined else Ok s0) d).
+    { eapply Forall_impl; [|exact IH]. intros [k x] Hkv s0. unfold repr_kv. cbn [fst snd] in *.
+      destruct (repr_str k) as [kk|]; [|discriminate].
+      destruct (repr false x) as [a|] eqn:Ea; [|discriminate]. intros Hs.
+      rewrite (Hkv _ eq_refl). destruct (has_undef x); [reflexivity|exact Hs]. }
+    rewrite (mapM_repr_strict _ _ _ _ IH' _ Em).
+    destruct (existsb (fun kv => has_undef (snd kv)) d); [reflexivity|exact H].
+  - reflexivity.
+Qed.
+
+(* whatever a tree whose repr fails prints holds no Undefined object, at any depth *)
+Lemma mapM_ok_all {T} (g : T -> result terr str) (h : T -> bool) l :
+  Forall (fun x => forall s, g x = Ok s -> h x = false) l ->
+  forall parts, mapM g l = Ok parts -> existsb h l = false.
+Proof.
+  induction 1 as [|x r Hx _ IH]; intros parts Hm; cbn [mapM existsb] in *; [reflexivity|].
+  destruct (g x) as [a|] eqn:Eg; [|discriminate].
+  destruct (mapM g r) as [t|] eqn:Er; [|discriminate].
+  rewrite (Hx _ eq_refl), (IH _ eq_refl). reflexivity.
+Qed.
+
+Theorem repr_strict_no_leak : forall v s, repr true v = Ok s -> has_undef v = false.
+Proof.
+  induction v as [|b0|z0|s0|l IH|l IH|d IH|n0|] using value_ind'; intros s H; try reflexivity.
+  - rewrite repr_list in H. rewrite has_undef_list.
+    destruct (mapM (repr true) l) as [parts|] eqn:Em; [|discriminate]. exact (mapM_ok_all _ _ _ IH _ Em).
+  - rewrite repr_tuple in H. rewrite has_undef_tuple.
+    destruct (mapM (repr true) l) as [parts|] eqn:Em; [|discriminate]. exact (mapM_ok_all _ _ _ IH _ Em).
+  - rewrite repr_dict in H. rewrite has_undef_dict.
+    destruct (mapM (repr_kv true) d) as [parts|] eqn:Em; [|discriminate].
+    refine (mapM_ok_all (repr_kv true) _ _ _ _ Em).
+    eapply Forall_impl; [|exact IH]. intros [k x] Hkv s0. unfold repr_kv. cbn [fst snd] in *.
+    destruct (repr_str k); [|discriminate]. destruct (repr true x) eqn:Ex; [|discriminate].
+    intros _. exact (Hkv _ eq_refl).
+  - discriminate.
+Qed.
+
+(* str() as {{ }} and RowParser's str field apply it *)
+Theorem to_str_strict_no_leak : forall v s, to_str true Strict v = Ok s -> has_undef v = false.
+Proof.
+  intros v s H. destruct v; try reflexivity; try exact (repr_strict_no_leak _ _ H). discriminate.
+Qed.
+
+Lemma to_str_strict_holds : forall v s,
+  has_undef v = true -> repr false v = Ok s -> to_str true Strict v = Err EUndefined.
+Proof.
+  intros v s Hu Hr. destruct v; try discriminate; try reflexivity;
+    cbn [to_str]; rewrite (repr_strict_of_lenient _ _ Hr), Hu; reflexivity.
+Qed.
 
 (* ------------------------------------------------------------------ expressions *)
 Lemma yields_undef c e x :
@@ -95,6 +291,9 @@ Proof.
   - rewrite Ha, Ht. auto.
 Qed.
 
+Lemma yields_carries c e x : yields c e x -> carries c e x.
+Proof. induction 1; econstructor; eassumption. Qed.
+
 Lemma veq_undef_r x : veq Strict x VUndef = Err EUndefined.
 Proof. destruct x; reflexivity. Qed.
 Lemma veq_undef_l y : veq Strict VUndef y = Err EUndefined.
@@ -104,15 +303,28 @@ Lemma eval_list p c l :
   eval p c (EList l) = match mapM (eval p c) l with Err e => Err e | Ok vs => Ok (VList vs) end.
 Proof.
   cbn [eval].
-  assert (H : (fix go (l0 : list expr) : result terr (list value) :=
-                 match l0 with
-                 | [] => Ok []
-                 | a :: r => match eval p c a with
-                             | Err e => Err e
-                             | Ok x => match go r with Err e => Err e | Ok xs => Ok (x :: xs) end
-                             end
-                 end) l = mapM (eval p c) l).
+  match goal with |- match ?g l with _ => _ end = _ => assert (H : g l = mapM (eval p c) l) end.
   { induction l as [|a r IH]; cbn; [reflexivity|]. destruct (eval p c a); [|reflexivity]. rewrite IH. reflexivity. }
+  rewrite H. reflexivity.
+Qed.
+
+Lemma eval_tuple p c l :
+  eval p c (ETuple l) = match mapM (eval p c) l with Err e => Err e | Ok vs => Ok (VTuple vs) end.
+Proof.
+  cbn [eval].
+  match goal with |- match ?g l with _ => _ end = _ => assert (H : g l = mapM (eval p c) l) end.
+  { induction l as [|a r IH]; cbn; [reflexivity|]. destruct (eval p c a); [|reflexivity]. rewrite IH. reflexivity. }
+  rewrite H. reflexivity.
+Qed.
+
+Lemma eval_dict p c d :
+  eval p c (EDict d) = if negb (distinct_keys (map fst d)) then Err EUnsupported
+                       else match mapM (eval_kv p c) d with Err e => Err e | Ok kvs => Ok (VDict kvs) end.
+Proof.
+  cbn [eval]. destruct (negb (distinct_keys (map fst d))); [reflexivity|].
+  match goal with |- match ?g d with _ => _ end = _ => assert (H : g d = mapM (eval_kv p c) d) end.
+  { induction d as [|[k a] r IH]; cbn [mapM]; [reflexivity|]. unfold eval_kv at 1. cbn [fst snd].
+    destruct (eval p c a); [|reflexivity]. rewrite IH. reflexivity. }
   rewrite H. reflexivity.
 Qed.
 
@@ -124,6 +336,47 @@ Proof.
   - destruct (f p); [|discriminate]. destruct (mapM f r) eqn:Er; [|discriminate].
     rewrite (IH _ eq_refl Ha). reflexivity.
 Qed.
+
+Lemma mapM_app_ok {E S T} (f : S -> result E T) pre a post vs v ws :
+  mapM f pre = Ok vs -> f a = Ok v -> mapM f post = Ok ws -> mapM f (pre ++ a :: post) = Ok (vs ++ v :: ws).
+Proof.
+  revert vs. induction pre as [|p r IH]; intros vs H Ha Hp; cbn in *.
+  - inversion H; subst. rewrite Ha, Hp. reflexivity.
+  - destruct (f p); [|discriminate]. destruct (mapM f r) eqn:Er; [|discriminate]. inversion H; subst.
+    rewrite (IH _ eq_refl Ha Hp). reflexivity.
+Qed.
+
+(* the value of a [carries] expression: it evaluates, and an Undefined object is inside *)
+Theorem carries_holds c e x :
+  carries c e x -> lookup c x = None -> reserved_var x = false ->
+  exists v, eval Strict c e = Ok v /\ has_undef v = true.
+Proof.
+  intros H Hl Hr.
+  induction H as [x|a b x v Ha Ht _ IH|a b x v Ha Ht _ IH
+                  |pre a post x vs ws Hpre _ IH Hpost|pre a post x vs ws Hpre _ IH Hpost
+                  |pre k a post x vs ws Hk Hpre _ IH Hpost].
+  - exists VUndef. cbn. rewrite Hr, Hl. split; reflexivity.
+  - destruct (IH Hl Hr) as [w [Hw Hu]]. exists w. cbn. rewrite Ha, Ht. split; assumption.
+  - destruct (IH Hl Hr) as [w [Hw Hu]]. exists w. cbn. rewrite Ha, Ht. split; assumption.
+  - destruct (IH Hl Hr) as [w [Hw Hu]]. exists (VList (vs ++ w :: ws)).
+    rewrite eval_list, (mapM_app_ok _ _ _ _ _ _ _ Hpre Hw Hpost). split; [reflexivity|].
+    rewrite has_undef_list, existsb_app. cbn [existsb]. rewrite Hu, orb_true_r. reflexivity.
+  - destruct (IH Hl Hr) as [w [Hw Hu]]. exists (VTuple (vs ++ w :: ws)).
+    rewrite eval_tuple, (mapM_app_ok _ _ _ _ _ _ _ Hpre Hw Hpost). split; [reflexivity|].
+    rewrite has_undef_tuple, existsb_app. cbn [existsb]. rewrite Hu, orb_true_r. reflexivity.
+  - destruct (IH Hl Hr) as [w [Hw Hu]]. exists (VDict (vs ++ (k, w) :: ws)).
+    assert (Hkv : eval_kv Strict c (k, a) = Ok (k, w)) by (unfold eval_kv; cbn [fst snd]; rewrite Hw; reflexivity).
+    rewrite eval_dict, Hk. cbn [negb]. rewrite (mapM_app_ok _ _ _ _ _ _ _ Hpre Hkv Hpost). split; [reflexivity|].
+    rewrite has_undef_dict, existsb_app. cbn [existsb snd]. rewrite Hu, orb_true_r. reflexivity.
+Qed.
+
+(* range() and the escape filter fail on an Undefined object and on every container *)
+Lemma range_of_holder p c a v :
+  eval p c a = Ok v -> has_undef v = true -> eval p c (ERange a) = Err ETypeErr.
+Proof. intros He Hu. cbn [eval]. rewrite He. destruct v; try discriminate; reflexivity. Qed.
+
+Lemma escape_of_holder v : has_undef v = true -> hard_err (apply_escape v).
+Proof. intros Hu. destruct v; try discriminate; cbn; first [exact hard_undef|exact hard_type]. Qed.
 
 Ltac use_yields c x Hl Hr :=
   repeat match goal with
@@ -140,7 +393,8 @@ Theorem eforced_is_error c e x :
   eforced c e x -> lookup c x = None -> reserved_var x = false -> hard_err (eval Strict c e).
 Proof.
   intros H Hl Hr.
-  induction H; try rewrite eval_list; cbn [eval]; use_yields c x Hl Hr; rw_evals.
+  induction H; try rewrite eval_list; try rewrite eval_tuple; try rewrite eval_dict;
+    cbn [eval]; use_yields c x Hl Hr; rw_evals.
   - (* F_attr *) unfold get_attr. rewrite H0. exact hard_undef.
   - (* F_attr_in *) pass_err (IHeforced Hl Hr).
   - (* F_index *) exact hard_undef.
@@ -162,11 +416,20 @@ Proof.
   - (* F_or_l *) exact hard_undef.
   - pass_err (IHeforced Hl Hr).
   - apply IHeforced; assumption.
-  - (* F_range *) exact hard_type.
+  - (* F_range *)
+    destruct (carries_holds _ _ _ H Hl Hr) as [w [Hw Hu]].
+    pose proof (range_of_holder _ _ _ _ Hw Hu) as Hg. cbn [eval] in Hg. rewrite Hg. exact hard_type.
   - pass_err (IHeforced Hl Hr).
   - (* F_list *)
     destruct (IHeforced Hl Hr) as [er [He Hh]].
     rewrite (mapM_app_err _ _ _ _ _ _ H He). exists er. split; [reflexivity|exact Hh].
+  - (* F_tuple *)
+    destruct (IHeforced Hl Hr) as [er [He Hh]].
+    rewrite (mapM_app_err _ _ _ _ _ _ H He). exists er. split; [reflexivity|exact Hh].
+  - (* F_dict *)
+    destruct (IHeforced Hl Hr) as [er [He Hh]].
+    assert (Hkv : eval_kv Strict c (k, a) = Err er) by (unfold eval_kv; cbn [fst snd]; rewrite He; reflexivity).
+    rewrite H. cbn [negb]. rewrite (mapM_app_err _ _ _ _ _ _ H0 Hkv). exists er. split; [reflexivity|exact Hh].
 Qed.
 
 (* ------------------------------------------------------------------ templates *)
@@ -180,18 +443,20 @@ Proof. reflexivity. Qed.
 Lemma lookup_cons_ne lv it c x : str_eqb lv x = false -> lookup ((lv, it) :: c) x = lookup c x.
 Proof. intros H. cbn. rewrite H. reflexivity. Qed.
 
-Theorem forced_is_error :
-  (forall c n x, nforced c n x -> lookup c x = None -> reserved_var x = false ->
-                 hard_err (render_node Strict n c))
-  /\ (forall c l x, lforced c l x -> lookup c x = None -> reserved_var x = false ->
-                    hard_err (render Strict l c))
-  /\ (forall c lv body items x, iforced c lv body items x -> lookup c x = None -> reserved_var x = false ->
-                    hard_err (concat_mapM (fun it => render Strict body ((lv, it) :: c)) items)).
+Theorem forced_is_error rf :
+  (forall c n x, nforced rf c n x -> lookup c x = None -> reserved_var x = false ->
+                 hard_err (render_node rf Strict n c))
+  /\ (forall c l x, lforced rf c l x -> lookup c x = None -> reserved_var x = false ->
+                    hard_err (render rf Strict l c))
+  /\ (forall c lv body items x, iforced rf c lv body items x -> lookup c x = None -> reserved_var x = false ->
+                    hard_err (concat_mapM (fun it => render rf Strict body ((lv, it) :: c)) items)).
 Proof.
   apply forced_mutind; intros; cbn [render_node].
   - rewrite (yields_undef _ _ _ y H H0). exact hard_undef.
   - apply hard_err_map. apply (eforced_is_error _ _ _ e0 H H0).
-  - rewrite (yields_undef _ _ _ y H H0). exact hard_undef.
+  - (* N_out_holds *) subst rf. rewrite e1. rewrite (to_str_strict_holds v s); [exact hard_undef| |exact e2].
+    destruct (carries_holds _ _ _ c0 H H0) as [w [Hw Hu]]. rewrite e1 in Hw. inversion Hw; subst. exact Hu.
+  - (* N_esc *) destruct (carries_holds _ _ _ c0 H H0) as [w [Hw Hu]]. rewrite Hw. exact (escape_of_holder _ Hu).
   - apply hard_err_map. apply (eforced_is_error _ _ _ e0 H H0).
   - rewrite (yields_undef _ _ _ y H H0). exact hard_undef.
   - apply hard_err_map. apply (eforced_is_error _ _ _ e H H0).
@@ -209,101 +474,169 @@ Proof.
     destruct (H H0 H1) as [er [-> Her]]. exists er. split; [reflexivity|exact Her].
 Qed.
 
-(* text templates: the statement of C16-1 *)
-Theorem undefined_is_error : forall t c x,
-  lforced c t x -> lookup c x = None -> reserved_var x = false -> hard_err (render Strict t c).
-Proof. intros t c x. apply (proj1 (proj2 forced_is_error)). Qed.
+(* text templates: the statement of C16-1, whatever repr() of an Undefined object does *)
+Theorem undefined_is_error : forall rf t c x,
+  lforced rf c t x -> lookup c x = None -> reserved_var x = false -> hard_err (render rf Strict t c).
+Proof. intros rf t c x. apply (proj1 (proj2 (forced_is_error rf))). Qed.
 
 (* the simplest instances carry the exact error class *)
-Lemma undefined_var_exact : forall pre post c x,
+Lemma undefined_var_exact : forall rf pre post c x,
   lookup c x = None -> reserved_var x = false -> text_ok pre = true ->
-  render Strict (NText pre :: NOut (EVar x) :: post) c = Err EUndefined.
+  render rf Strict (NText pre :: NOut (EVar x) :: post) c = Err EUndefined.
 Proof.
-  intros pre post c x Hl Hr Hp. unfold render. cbn. rewrite Hp, Hr, Hl. reflexivity.
+  intros rf pre post c x Hl Hr Hp. unfold render. cbn. rewrite Hp, Hr, Hl. reflexivity.
 Qed.
 
-(* native templates: the Undefined object comes back from the template engine; the
-   instantiation of the row ends in RowParser's conversion to the field type, and EVERY
-   conversion forces it *)
-Theorem native_undefined_is_error : forall e c x,
+(* native templates.  A forced mention fails in the engine.  An unforced one:
+   nc = true   parse_as_string looks through the result and fails - also when the Undefined
+               object sits inside a list / tuple / dict literal, at any depth;
+   nc = false  the Undefined object comes back; the instantiation of the row ends in
+               RowParser's conversion to the field type, and EVERY conversion forces it - but
+               not one inside a container (strict_everywhere_decided, else-branch) *)
+Theorem native_undefined_is_error : forall nc e c x,
   lookup c x = None -> reserved_var x = false ->
-  (eforced c e x -> hard_err (eval_native Strict e c))
+  (eforced c e x -> hard_err (eval_native nc Strict e c))
   /\ (yields c e x ->
-        eval_native Strict e c = Ok VUndef
-        /\ to_text Strict (PObj VUndef) = Err EUndefined
-        /\ to_include Strict (PObj VUndef) = Err EUndefined
-        /\ to_entries Strict (PObj VUndef) = Err EUndefined).
+        if nc then eval_native nc Strict e c = Err EUndefined
+        else eval_native nc Strict e c = Ok VUndef
+             /\ to_text Strict (PObj VUndef) = Err EUndefined
+             /\ to_include Strict (PObj VUndef) = Err EUndefined
+             /\ to_entries Strict (PObj VUndef) = Err EUndefined).
 Proof.
-  intros e c x Hl Hr. split.
+  intros nc e c x Hl Hr. split.
   - intros H. unfold eval_native. apply hard_err_map. apply (eforced_is_error _ _ _ H Hl Hr).
-  - intros H. unfold eval_native. rewrite (yields_undef _ _ _ H Hl Hr). repeat split.
+  - intros H. unfold eval_native. rewrite (yields_undef _ _ _ H Hl Hr). destruct nc; repeat split.
+Qed.
+
+Theorem native_holder_is_error : forall e c x,
+  lookup c x = None -> reserved_var x = false -> carries c e x -> eval_native true Strict e c = Err EUndefined.
+Proof.
+  intros e c x Hl Hr H. destruct (carries_holds _ _ _ H Hl Hr) as [w [Hw Hu]].
+  unfold eval_native. rewrite Hw. cbn [andb]. rewrite Hu. reflexivity.
+Qed.
+
+(* no native result is, or holds at any depth, an Undefined object - for every expression,
+   every context (even one that binds a name to an Undefined object), either policy *)
+Theorem native_no_leak : forall p e c v, eval_native true p e c = Ok v -> has_undef v = false.
+Proof.
+  intros p e c v H. unfold eval_native in H. destruct (eval p c e) as [w|]; [|discriminate].
+  cbn [andb] in H. destruct (has_undef w) eqn:Hu; [discriminate|].
+  destruct w; try (inversion H; subst; exact Hu).
+  destruct (native_plain s); [|discriminate]. inversion H; subst. reflexivity.
 Qed.
 
 (* a missing FIELD of a defined object / an index out of range is an Undefined object too *)
-Lemma missing_field_is_error : forall c a f d,
+Lemma missing_field_is_error : forall rf c a f d,
   eval Strict c a = Ok (VDict d) -> lookup d f = None -> reserved_attr f = false ->
-  render Strict [NOut (EAttr a f)] c = Err EUndefined.
+  render rf Strict [NOut (EAttr a f)] c = Err EUndefined.
 Proof.
-  intros c a f d Ha Hl Hr. unfold render. cbn. rewrite Ha. unfold get_attr. rewrite Hr, Hl. reflexivity.
+  intros rf c a f d Ha Hl Hr. unfold render. cbn. rewrite Ha. unfold get_attr. rewrite Hr, Hl. reflexivity.
 Qed.
 
 (* ------------------------------------------------------------------ defined_exact *)
-Lemma render_app p a b c :
-  render p (a ++ b) c = match render p a c with
+Lemma render_app rf p a b c :
+  render rf p (a ++ b) c = match render rf p a c with
                         | Err e => Err e
-                        | Ok s => match render p b c with Err e => Err e | Ok t => Ok (s ++ t) end
+                        | Ok s => match render rf p b c with Err e => Err e | Ok t => Ok (s ++ t) end
                         end.
 Proof.
   unfold render. induction a as [|n r IH]; cbn.
   - destruct (concat_mapM _ b); reflexivity.
-  - destruct (render_node p n c); [|reflexivity]. rewrite IH.
+  - destruct (render_node rf p n c); [|reflexivity]. rewrite IH.
     destruct (concat_mapM _ r); [|reflexivity].
     destruct (concat_mapM _ b); [|reflexivity]. rewrite app_assoc. reflexivity.
 Qed.
 
-Theorem defined_exact : forall p c x v,
+Theorem defined_exact : forall rf p c x v,
   lookup c x = Some v -> reserved_var x = false ->
-  render p [NOut (EVar x)] c = match to_str p v with Err e => Err e | Ok s => Ok (s ++ []) end.
-Proof. intros p c x v Hl Hr. unfold render. cbn. rewrite Hr, Hl. reflexivity. Qed.
+  render rf p [NOut (EVar x)] c = match to_str rf p v with Err e => Err e | Ok s => Ok (s ++ []) end.
+Proof. intros rf p c x v Hl Hr. unfold render. cbn. rewrite Hr, Hl. reflexivity. Qed.
 
 (* in place: text before and after survives, the reference is replaced by exactly str(value),
    whatever the policy *)
-Theorem defined_exact_in_place : forall p c x v s pre post rest,
-  lookup c x = Some v -> reserved_var x = false -> to_str p v = Ok s ->
-  render p pre c = Ok rest ->
-  render p (pre ++ NOut (EVar x) :: post) c
-  = match render p post c with Err e => Err e | Ok t => Ok (rest ++ s ++ t) end.
+Theorem defined_exact_in_place : forall rf p c x v s pre post rest,
+  lookup c x = Some v -> reserved_var x = false -> to_str rf p v = Ok s ->
+  render rf p pre c = Ok rest ->
+  render rf p (pre ++ NOut (EVar x) :: post) c
+  = match render rf p post c with Err e => Err e | Ok t => Ok (rest ++ s ++ t) end.
 Proof.
-  intros p c x v s pre post rest Hl Hr Hs Hpre.
+  intros rf p c x v s pre post rest Hl Hr Hs Hpre.
   rewrite render_app, Hpre. unfold render at 1. cbn. rewrite Hr, Hl, Hs.
-  fold (render p post c). destruct (render p post c); reflexivity.
+  fold (render rf p post c). destruct (render rf p post c); reflexivity.
 Qed.
 
-Theorem defined_escape_exact : forall p c x s,
+Theorem defined_escape_exact : forall rf p c x s,
   lookup c x = Some (VStr s) -> reserved_var x = false ->
-  render p [NOutEsc (EVar x)] c = Ok (escape s ++ []).
+  render rf p [NOutEsc (EVar x)] c = Ok (escape s ++ []).
 Proof.
-  intros p c x s Hl Hr. unfold render. cbn. rewrite Hr, Hl. cbn. rewrite escape_string_one_pass. reflexivity.
+  intros rf p c x s Hl Hr. unfold render. cbn. rewrite Hr, Hl. cbn. rewrite escape_string_one_pass. reflexivity.
 Qed.
 
-Lemma to_str_str p s : to_str p (VStr s) = Ok s.
+Lemma to_str_str rf p s : to_str rf p (VStr s) = Ok s.
 Proof. reflexivity. Qed.
 
 (* ------------------------------------------------------------------ refutations *)
-Lemma lenient_blank : forall x, reserved_var x = false ->
-  render Lenient [NOut (EVar x)] [] = Ok [].
-Proof. intros x H. unfold render. cbn. rewrite H. reflexivity. Qed.
+Lemma lenient_blank : forall rf x, reserved_var x = false ->
+  render rf Lenient [NOut (EVar x)] [] = Ok [].
+Proof. intros rf x H. unfold render. cbn. rewrite H. reflexivity. Qed.
 
-Lemma lenient_blank_in_text : forall x pre post, reserved_var x = false ->
+Lemma lenient_blank_in_text : forall rf x pre post, reserved_var x = false ->
   text_ok pre = true -> text_ok post = true ->
-  render Lenient [NText pre; NOut (EVar x); NText post] [] = Ok (pre ++ post ++ []).
-Proof. intros x pre post H Hp Hq. unfold render. cbn. rewrite H, Hp, Hq. reflexivity. Qed.
+  render rf Lenient [NText pre; NOut (EVar x); NText post] [] = Ok (pre ++ post ++ []).
+Proof. intros rf x pre post H Hp Hq. unfold render. cbn. rewrite H, Hp, Hq. reflexivity. Qed.
 
-(* even Strict does not force an Undefined object stored in a list literal *)
+(* jinja2.StrictUndefined alone (repr not guarded, native result not looked through) does not
+   force an Undefined object stored in a list literal *)
+Definition s_undefined_in_list : str := [91; 85; 110; 100; 101; 102; 105; 110; 101; 100; 93]%N.  (* [Undefined] *)
+
 Lemma strict_list_literal : forall x, reserved_var x = false ->
-  render Strict [NOut (EList [EVar x])] [] = Ok [91; 85; 110; 100; 101; 102; 105; 110; 101; 100; 93]%N
-  /\ eval_native Strict (EList [EVar x]) [] = Ok (VList [VUndef]).
+  render false Strict [NOut (EList [EVar x])] [] = Ok s_undefined_in_list
+  /\ eval_native false Strict (EList [EVar x]) [] = Ok (VList [VUndef]).
 Proof. intros x H. unfold render, eval_native. cbn. rewrite H. split; reflexivity. Qed.
+
+(* ------------------------------------------------------------------ strict everywhere *)
+(* The statement of the repaired behaviour, for the flags [rf] (text environment) and [nc]:
+   (1) text templates: every forcing position - the ones of StrictUndefined and, new, printing
+       a list / tuple / dict literal that holds the Undefined object at any depth - is an error;
+   (2) native templates: a forced mention, or a result that is or holds the Undefined object,
+       is an error;
+   (3) whatever {{ }} prints holds no Undefined object; (4) whatever {@ @} hands back holds none. *)
+Definition strict_everywhere (rf nc : bool) : Prop :=
+  (forall t c x, lforced true c t x -> lookup c x = None -> reserved_var x = false ->
+                 hard_err (render rf Strict t c))
+  /\ (forall e c x, eforced c e x \/ carries c e x -> lookup c x = None -> reserved_var x = false ->
+                    hard_err (eval_native nc Strict e c))
+  /\ (forall v s, to_str rf Strict v = Ok s -> has_undef v = false)
+  /\ (forall p e c v, eval_native nc p e c = Ok v -> has_undef v = false).
+
+Theorem strict_everywhere_repaired : strict_everywhere true true.
+Proof.
+  split; [|split; [|split]].
+  - exact (undefined_is_error true).
+  - intros e c x [H|H] Hl Hr.
+    + exact (proj1 (native_undefined_is_error true e c x Hl Hr) H).
+    + rewrite (native_holder_is_error e c x Hl Hr H). exact hard_undef.
+  - exact to_str_strict_no_leak.
+  - exact native_no_leak.
+Qed.
+
+(* decided for the code of this run (probed constants env_repr_fails, native_result_checked):
+   repaired tree - the positive statement; a tree where one of the two is missing - the witness
+   of the finding undefined-inside-list-literal *)
+Theorem strict_everywhere_decided :
+  if env_repr_fails && native_result_checked
+  then strict_everywhere env_repr_fails native_result_checked
+  else forall x, reserved_var x = false ->
+       (env_repr_fails = false /\ render env_repr_fails Strict [NOut (EList [EVar x])] [] = Ok s_undefined_in_list)
+       \/ (native_result_checked = false
+           /\ eval_native native_result_checked Strict (EList [EVar x]) [] = Ok (VList [VUndef])).
+Proof.
+  destruct env_repr_fails; destruct native_result_checked; cbn [andb].
+  - exact strict_everywhere_repaired.
+  - intros x H. right. split; [reflexivity|]. exact (proj2 (strict_list_literal x H)).
+  - intros x H. left. split; [reflexivity|]. exact (proj1 (strict_list_literal x H)).
+  - intros x H. left. split; [reflexivity|]. exact (proj1 (strict_list_literal x H)).
+Qed.
 
 (* ------------------------------------------------------------------ skipped rows *)
 Definition untemplated_row (e : event) : Prop :=
@@ -312,13 +645,16 @@ Definition untemplated_row (e : event) : Prop :=
 Lemma parse_as_string_none pe pn c : parse_as_string_m pe pn None c = Ok (PStr (strip (show_cell c))).
 Proof. reflexivity. Qed.
 
+Lemma parse_none pe pn c : parse_m pe pn None c = Ok (PNv (split_into_lists (strip (show_cell c)))).
+Proof. reflexivity. Qed.
+
 Lemma inst_row_none pe pn r log :
   exists inc mv, inst_row pe pn None r log = (log, Ok (inc, mv)).
 Proof.
   unfold inst_row, log_render. cbn [renders andb]. rewrite parse_as_string_none. cbn [to_include].
   destruct (rk r) eqn:Ek.
-  all: try (unfold parse_m; rewrite parse_as_string_none; cbn [to_text]; eexists; eexists; reflexivity).
-  unfold parse_m. rewrite parse_as_string_none.
+  all: try (rewrite parse_as_string_none; cbn [to_text]; eexists; eexists; reflexivity).
+  rewrite parse_none.
   destruct (split_into_lists (strip (show_cell (r_main r)))) eqn:Es; cbn [to_entries]; eexists; eexists; reflexivity.
 Qed.
 
@@ -380,7 +716,7 @@ Theorem skipped_policy_independent : forall pe pn pe' pn' sc em tl rows fuel bt 
 Proof.
   intros pe pn pe' pn' sc em tl rows fuel.
   assert (Hi : forall r log, inst_row pe pn None r log = inst_row pe' pn' None r log).
-  { intros r log. unfold inst_row, log_render, parse_m. cbn [renders andb]. rewrite !parse_as_string_none. cbn [to_include].
+  { intros r log. unfold inst_row, log_render. cbn [renders andb]. rewrite !parse_as_string_none, !parse_none. cbn [to_include].
     destruct (rk r); reflexivity. }
   assert (H : forall bt pos cx log, parse_block pe pn sc em tl rows fuel bt true pos cx log = parse_block pe' pn' sc em tl rows fuel bt true pos cx log).
   { induction fuel as [|f IH]; intros bt pos cx log; cbn [parse_block]; [reflexivity|].
@@ -407,7 +743,7 @@ Proof.
   cbn [to_include]. 
   assert (Hinc : str_to_include (strip (show_cell cell_false)) = false) by (vm_compute; reflexivity).
   rewrite Hinc.
-  destruct (rk r) eqn:Ek; unfold parse_m; rewrite ?parse_as_string_none; cbn [to_text];
+  destruct (rk r) eqn:Ek; rewrite ?parse_as_string_none, ?parse_none; cbn [to_text];
     try (eexists; reflexivity).
   destruct (split_into_lists (strip (show_cell (r_main r)))) eqn:Es; cbn [to_entries]; eexists; reflexivity.
 Qed.
@@ -426,12 +762,13 @@ Definition ex_tmpl : tmpl :=
   [NText [72; 105; 32]%N; NOut (EVar n_name);
    NIf (EVar n_flag) [NText [44; 32]%N; NOut (EAnd (EVar n_flag) (EVar n_nmae))] []].
 
-Example undefined_is_error_nonvacuous :
-  lforced ex_ctx ex_tmpl n_nmae /\ lookup ex_ctx n_nmae = None /\ reserved_var n_nmae = false
-  /\ render Strict ex_tmpl ex_ctx = Err EUndefined
-  /\ render Lenient ex_tmpl ex_ctx = Ok [72; 105; 32; 65; 110; 110; 44; 32]%N.
+Example undefined_is_error_nonvacuous : forall rf,
+  lforced rf ex_ctx ex_tmpl n_nmae /\ lookup ex_ctx n_nmae = None /\ reserved_var n_nmae = false
+  /\ render rf Strict ex_tmpl ex_ctx = Err EUndefined
+  /\ render rf Lenient ex_tmpl ex_ctx = Ok [72; 105; 32; 65; 110; 110; 44; 32]%N.
 Proof.
-  split; [|split; [|split; [|split]]]; try (vm_compute; reflexivity).
+  intros rf.
+  split; [|split; [|split; [|split]]]; try (destruct rf; vm_compute; reflexivity).
   unfold ex_tmpl.
   eapply L_later; [vm_compute; reflexivity|].
   eapply L_later; [vm_compute; reflexivity|].
@@ -443,16 +780,53 @@ Qed.
 
 (* the same name in the UN-taken branch is not evaluated: no derivation is needed, the
    render succeeds under Strict *)
-Example false_branch_not_evaluated :
-  render Strict [NIf (ENot (EVar n_flag)) [NOut (EVar n_nmae)] [NText [98]%N]] ex_ctx = Ok [98]%N
-  /\ render Strict [NOut (EAnd (ENot (EVar n_flag)) (EVar n_nmae))] ex_ctx = Ok [70; 97; 108; 115; 101]%N
-  /\ render Strict [NFor [113]%N (EList []) [NOut (EVar n_nmae)]] ex_ctx = Ok [].
-Proof. repeat split; vm_compute; reflexivity. Qed.
+Example false_branch_not_evaluated : forall rf,
+  render rf Strict [NIf (ENot (EVar n_flag)) [NOut (EVar n_nmae)] [NText [98]%N]] ex_ctx = Ok [98]%N
+  /\ render rf Strict [NOut (EAnd (ENot (EVar n_flag)) (EVar n_nmae))] ex_ctx = Ok [70; 97; 108; 115; 101]%N
+  /\ render rf Strict [NFor [113]%N (EList []) [NOut (EVar n_nmae)]] ex_ctx = Ok [].
+Proof. intros rf. repeat split; destruct rf; vm_compute; reflexivity. Qed.
 
-Example defined_exact_nonvacuous :
-  render Strict [NText [72; 105; 32]%N; NOut (EVar n_name); NText [33]%N] ex_ctx
+Example defined_exact_nonvacuous : forall rf,
+  render rf Strict [NText [72; 105; 32]%N; NOut (EVar n_name); NText [33]%N] ex_ctx
   = Ok [72; 105; 32; 65; 110; 110; 33]%N.
-Proof. vm_compute. reflexivity. Qed.
+Proof. intros rf. destruct rf; vm_compute; reflexivity. Qed.
+
+(* "t={{ {'k': (1, [name, nmae])} }}": the misspelt name sits three literals deep, after a
+   defined one.  It is carried, printing the dict is a forcing position when repr fails
+   (lforced true), the render is then an UndefinedError; a tree whose repr does not fail
+   prints the word Undefined; the native template {@ {'k': (1, [name, nmae])} @} fails when
+   the result is looked through and hands the Undefined object back when it is not *)
+Definition ex_holder : expr :=
+  EDict [([107]%N, ETuple [EInt 1; EList [EVar n_name; EVar n_nmae]])].
+Definition ex_holder_tmpl : tmpl := [NText [116; 61]%N; NOut ex_holder].
+
+Example strict_everywhere_nonvacuous :
+  carries ex_ctx ex_holder n_nmae
+  /\ lforced true ex_ctx ex_holder_tmpl n_nmae
+  /\ render true Strict ex_holder_tmpl ex_ctx = Err EUndefined
+  /\ render false Strict ex_holder_tmpl ex_ctx
+     = Ok [116; 61; 123; 39; 107; 39; 58; 32; 40; 49; 44; 32; 91; 39; 65; 110; 110; 39; 44; 32;
+           85; 110; 100; 101; 102; 105; 110; 101; 100; 93; 41; 125]%N   (* t={'k': (1, ['Ann', Undefined])} *)
+  /\ eval_native true Strict ex_holder ex_ctx = Err EUndefined
+  /\ eval_native false Strict ex_holder ex_ctx
+     = Ok (VDict [([107]%N, VTuple [VInt 1; VList [VStr [65; 110; 110]%N; VUndef]])])
+  (* the same literal over defined names is untouched by the flags *)
+  /\ (forall rf, render rf Strict [NOut (EList [EVar n_name; ETuple [EVar n_flag]])] ex_ctx
+                 = Ok [91; 39; 65; 110; 110; 39; 44; 32; 40; 84; 114; 117; 101; 44; 41; 93]%N)   (* ['Ann', (True,)] *)
+  /\ (forall nc, eval_native nc Strict (EList [EVar n_name; ETuple [EVar n_flag]]) ex_ctx
+                 = Ok (VList [VStr [65; 110; 110]%N; VTuple [VBool true]])).
+Proof.
+  assert (Hc : carries ex_ctx ex_holder n_nmae).
+  { unfold ex_holder.
+    apply (C_dict ex_ctx [] [107]%N _ [] n_nmae [] []); [reflexivity|reflexivity| |reflexivity].
+    apply (C_tuple ex_ctx [EInt 1] _ [] n_nmae [VInt 1] []); [reflexivity| |reflexivity].
+    apply (C_list ex_ctx [EVar n_name] _ [] n_nmae [VStr [65; 110; 110]%N] []); [vm_compute; reflexivity| |reflexivity].
+    apply C_var. }
+  split; [exact Hc|]. split.
+  { unfold ex_holder_tmpl. eapply L_later; [vm_compute; reflexivity|]. apply L_here.
+    eapply N_out_holds; [reflexivity|exact Hc|vm_compute; reflexivity|vm_compute; reflexivity]. }
+  repeat split; try (vm_compute; reflexivity); intros f; destruct f; vm_compute; reflexivity.
+Qed.
 
 (* a sheet: row 0 plain "hi"; row 1 begin_block include_if=FALSE; row 2 plain "m {{ (nmae).k }}";
    row 3 end_block; row 4 plain "tail".  Under Strict the run succeeds, rows 2 and 3 are read
@@ -477,3 +851,80 @@ Example unskipped_is_error :
          [mk_srow KPlain (cT []) (CTmpl [NText [109; 32]%N; NOut (EAttr (EVar n_nmae) [107]%N)])] ex_ctx)
   = Err EUndefined.
 Proof. vm_compute. reflexivity. Qed.
+
+(* ------------------------------------------------------------------ row level: loop entries *)
+(* whatever parse_as_string / parse hand back as an OBJECT holds no Undefined object when native
+   results are looked through *)
+Lemma parse_as_string_obj_no_leak : forall fl pe pn octx c v,
+  f_nat_check fl = true -> parse_as_string_f fl pe pn octx c = Ok (PObj v) -> has_undef v = false.
+Proof.
+  intros fl pe pn octx c v Hf H. unfold parse_as_string_f in H.
+  destruct octx as [cx|]; [|discriminate].
+  repeat match type of H with
+         | (if ?b then _ else _) = _ => destruct b; try discriminate
+         end.
+  - destruct c as [t|e]; [discriminate|].
+    rewrite Hf in H. destruct (eval_native true pn e cx) as [w|] eqn:Ew; [|discriminate].
+    inversion H; subst. exact (native_no_leak _ _ _ _ Ew).
+  - destruct c as [t|e]; [|discriminate].
+    destruct (render (f_env_repr fl) pe (strip_last (strip_first t)) cx); discriminate.
+Qed.
+
+Lemma parse_obj_no_leak : forall fl pe pn octx c v,
+  f_nat_check fl = true -> parse_f fl pe pn octx c = Ok (PObj v) -> has_undef v = false.
+Proof.
+  intros fl pe pn octx c v Hf H. unfold parse_f in H.
+  destruct (parse_as_string_f fl pe pn octx c) as [[s|w|n]|] eqn:Ep; try discriminate.
+  inversion H; subst. exact (parse_as_string_obj_no_leak _ _ _ _ _ _ Hf Ep).
+Qed.
+
+Lemma nv_to_value_clean : forall v, has_undef (nv_to_value v) = false.
+Proof.
+  fix IH 1. intros [s|l]; [reflexivity|]. cbn [nv_to_value]. rewrite has_undef_list.
+  induction l as [|x r IHr]; cbn [map existsb]; [reflexivity|]. rewrite (IH x), IHr. reflexivity.
+Qed.
+
+Lemma existsb_false_Forall {T} (h : T -> bool) l : existsb h l = false -> Forall (fun x => h x = false) l.
+Proof.
+  induction l as [|x r IH]; cbn [existsb]; intros H; constructor.
+  - destruct (h x); [discriminate|reflexivity].
+  - apply IH. destruct (h x); [discriminate|exact H].
+Qed.
+
+(* the list a begin_for row iterates over: no element is, or holds at any depth, an Undefined
+   object - so no loop variable is ever bound to one - for every row, context, policy, log *)
+Theorem loop_entries_no_undefined : native_result_checked = true ->
+  forall pe pn octx r log log' inc es,
+  inst_row pe pn octx r log = (log', Ok (inc, MEntries es)) -> Forall (fun v => has_undef v = false) es.
+Proof.
+  intros Hnc pe pn octx r log log' inc es H. unfold inst_row in H.
+  destruct (parse_as_string_m pe pn octx (r_inc r)) as [pi|]; [|discriminate].
+  destruct (to_include pn pi) as [i|]; [|discriminate].
+  assert (Hm : forall k, (match parse_as_string_m pe pn octx (r_main r) with
+                         | Err e => (k, Err e)
+                         | Ok pm => match to_text pn pm with
+                                    | Err e => (k, Err e)
+                                    | Ok s => (k, Ok (i, MText s))
+                                    end
+                         end) = (log', Ok (inc, MEntries es)) -> False).
+  { intros k Hk. destruct (parse_as_string_m pe pn octx (r_main r)) as [pm|]; [|discriminate].
+    destruct (to_text pn pm); discriminate. }
+  destruct (rk r); try (exfalso; exact (Hm _ H)).
+  destruct (parse_m pe pn octx (r_main r)) as [pm|] eqn:Ep; [|discriminate].
+  destruct (to_entries pn pm) as [es'|] eqn:Ee; [|discriminate].
+  inversion H; subst es'. clear H Hm.
+  destruct pm as [s|v|n]; cbn [to_entries] in Ee.
+  - discriminate.
+  - assert (Hv : has_undef v = false).
+    { apply (parse_obj_no_leak tree_flags pe pn octx (r_main r) v); [exact Hnc|exact Ep]. }
+    destruct v; try (inversion Ee; subst; constructor; [exact Hv|constructor]).
+    + (* list *) inversion Ee; subst. rewrite has_undef_list in Hv. exact (existsb_false_Forall _ _ Hv).
+    + (* tuple *) inversion Ee; subst. rewrite has_undef_tuple in Hv. exact (existsb_false_Forall _ _ Hv).
+    + (* dict: the keys *) inversion Ee; subst. clear. induction d as [|kv d IH]; cbn [map]; constructor; [reflexivity|exact IH].
+    + (* range *) unfold range_items in Ee. destruct (Z.ltb 10000 n); [discriminate|]. inversion Ee; subst.
+      unfold zrange. clear. induction (seq 0 (Z.to_nat n)) as [|k l IH]; cbn [map]; constructor; [reflexivity|exact IH].
+    + (* Undefined itself *) discriminate.
+  - destruct n as [s|l]; inversion Ee; subst.
+    + constructor; [reflexivity|constructor].
+    + clear. induction l as [|x l IH]; cbn [map]; constructor; [apply nv_to_value_clean|exact IH].
+Qed.
